@@ -42,6 +42,14 @@ class FlowWorld(World):
         sched = self.sched
 
         def send(data):
+            plan = self.sock.send_plan
+            if plan and isinstance(plan[0], tuple) and plan[0][0] == "mark":
+                # ("mark", d): accept exactly as many bytes as leave total_outbufs_len = high_watermark + d
+                if (not self.sock.client_reading) or self.sock.client_gone or self.sock.closed:
+                    plan.insert(0, None)     # this attempt fails anyway; keep the mark entry for the next one
+                else:
+                    total = object.__getattribute__(self.channel, "total_outbufs_len")
+                    plan[0] = max(0, total - self.adj.outbuf_high_watermark - plan[0][1])
             try:
                 n = orig_send(data)
             except OSError as e:
@@ -322,3 +330,684 @@ def compare_follow(answer, tr):
                 return False, matched, "event %d %s: pending bytes model=%s real=%d ; %s" % (idx, e, m["p"], obs["p"], st)
         matched += 1
     return True, matched, ""
+
+
+# ---------------------------------------------------------------------------
+# shape audit: the sequence of lock scopes, tests, tracked attribute accesses and
+# calls of every method Model/ChanFlow.v represents, from the ast of channel.py
+
+AUDITED = ["writable", "readable", "handle_write", "_flush_exception", "handle_read",
+           "_flush_some_if_lockable", "_flush_some", "handle_close", "write_soon",
+           "_flush_outbufs_below_high_watermark", "service", "received"]
+AUDITED_DISPATCHER = ["send", "recv", "close"]
+_SELF_ATTRS = set(TRACKED) | {"outbufs"}
+
+
+def _dotted(node):
+    parts = []
+    while isinstance(node, ast.Attribute):
+        parts.append(node.attr)
+        node = node.value
+    if isinstance(node, ast.Subscript):
+        inner = _dotted(node.value)
+        return (inner + "[]" + ("." + ".".join(reversed(parts)) if parts else "")) if inner else None
+    if isinstance(node, ast.Name):
+        parts.append(node.id)
+        return ".".join(reversed(parts))
+    return None
+
+
+class _Shape(ast.NodeVisitor):
+    """emits tokens in evaluation order"""
+
+    def __init__(self):
+        self.out = []
+
+    def expr(self, node):
+        """tokens of an expression: calls through self / the buffers, reads of tracked attributes"""
+        if node is None:
+            return
+        if isinstance(node, ast.Call):
+            name = _dotted(node.func)
+            for a in node.args:
+                self.expr(a)
+            for k in node.keywords:
+                self.expr(k.value)
+            if isinstance(node.func, ast.Attribute):
+                self.expr(node.func.value)
+            if name and (name.startswith("self.") or name.startswith("outbuf") or name.startswith("toclose")) \
+                    and ".logger." not in name:
+                kws = ",".join("%s=%s" % (k.arg, ast.unparse(k.value)) for k in node.keywords)
+                pos = ",".join(ast.unparse(a) for a in node.args
+                               if isinstance(a, ast.Constant) or (isinstance(a, ast.Attribute) and _dotted(a) and _dotted(a).startswith("self._")))
+                self.out.append("call:%s(%s)" % (name, ",".join(x for x in (pos, kws) if x)))
+            return
+        if isinstance(node, ast.Attribute):
+            if isinstance(node.value, ast.Name) and node.value.id == "self" and node.attr in _SELF_ATTRS:
+                self.out.append("R:" + node.attr)
+                return
+            self.expr(node.value)
+            return
+        for ch in ast.iter_child_nodes(node):
+            if isinstance(ch, ast.expr):
+                self.expr(ch)
+
+    def target(self, node):
+        if isinstance(node, ast.Attribute) and isinstance(node.value, ast.Name) and node.value.id == "self" \
+                and node.attr in _SELF_ATTRS:
+            self.out.append("W:" + node.attr)
+        elif isinstance(node, (ast.Tuple, ast.List)):
+            for e in node.elts:
+                self.target(e)
+
+    def block(self, stmts):
+        for st in stmts:
+            self.stmt(st)
+
+    def stmt(self, st):
+        o = self.out
+        if isinstance(st, ast.Expr):
+            if isinstance(st.value, ast.Constant):
+                return
+            self.expr(st.value)
+        elif isinstance(st, ast.Assign):
+            self.expr(st.value)
+            if all(isinstance(t, ast.Name) for t in st.targets) and (
+                    isinstance(st.value, ast.Constant)
+                    or (isinstance(st.value, ast.Attribute) and (_dotted(st.value) or "").startswith("self._"))):
+                o.append("let:%s=%s" % (",".join(t.id for t in st.targets), ast.unparse(st.value)))
+            for t in st.targets:
+                self.target(t)
+        elif isinstance(st, ast.AugAssign):
+            if isinstance(st.target, ast.Attribute) and isinstance(st.target.value, ast.Name) \
+                    and st.target.value.id == "self" and st.target.attr in _SELF_ATTRS:
+                self.expr(st.value)
+                o.append("R:" + st.target.attr)
+                o.append("W:%s(%s)" % (st.target.attr, type(st.op).__name__))
+            else:
+                self.expr(st.value)
+        elif isinstance(st, ast.If):
+            o.append("if(%s){" % ast.unparse(st.test))
+            self.expr(st.test)
+            self.block(st.body)
+            o.append("}")
+            if st.orelse:
+                o.append("else{")
+                self.block(st.orelse)
+                o.append("}")
+        elif isinstance(st, ast.While):
+            o.append("while(%s){" % ast.unparse(st.test))
+            self.expr(st.test)
+            self.block(st.body)
+            o.append("}")
+            if st.orelse:
+                o.append("whileelse{")
+                self.block(st.orelse)
+                o.append("}")
+        elif isinstance(st, ast.For):
+            o.append("for(%s){" % ast.unparse(st.iter))
+            self.expr(st.iter)
+            self.block(st.body)
+            o.append("}")
+        elif isinstance(st, ast.With):
+            names = [ast.unparse(i.context_expr) for i in st.items]
+            o.append("with(%s){" % ",".join(names))
+            self.block(st.body)
+            o.append("}")
+        elif isinstance(st, ast.Try):
+            o.append("try{")
+            self.block(st.body)
+            o.append("}")
+            for h in st.handlers:
+                o.append("except(%s){" % (ast.unparse(h.type) if h.type else ""))
+                self.block(h.body)
+                o.append("}")
+            if st.orelse:
+                o.append("tryelse{")
+                self.block(st.orelse)
+                o.append("}")
+            if st.finalbody:
+                o.append("finally{")
+                self.block(st.finalbody)
+                o.append("}")
+        elif isinstance(st, ast.Return):
+            self.expr(st.value)
+            o.append("return")
+        elif isinstance(st, ast.Raise):
+            o.append("raise(%s)" % (ast.unparse(st.exc) if st.exc else ""))
+        elif isinstance(st, (ast.Break, ast.Continue, ast.Pass)):
+            o.append(type(st).__name__.lower())
+        else:
+            for ch in ast.iter_child_nodes(st):
+                if isinstance(ch, ast.expr):
+                    self.expr(ch)
+
+
+def _strip_logging(tokens):
+    return [t for t in tokens if "logger" not in t and "log_socket_errors" not in t]
+
+
+def method_shapes(src_dir):
+    """-> {"HTTPChannel.write_soon": [tokens], ...} for the audited methods"""
+    out = {}
+    for fname, cls, names in (("channel.py", "HTTPChannel", AUDITED), ("wasyncore.py", "dispatcher", AUDITED_DISPATCHER)):
+        tree = ast.parse(open(os.path.join(src_dir, "waitress", fname)).read())
+        for node in tree.body:
+            if isinstance(node, ast.ClassDef) and node.name == cls:
+                for f in node.body:
+                    if isinstance(f, ast.FunctionDef) and f.name in names:
+                        v = _Shape()
+                        v.block(f.body)
+                        sig = "(" + ",".join(a.arg + ("=" + ast.unparse(d) if d is not None else "")
+                                             for a, d in zip(f.args.args, [None] * (len(f.args.args) - len(f.args.defaults)) + list(f.args.defaults))) + ")"
+                        out["%s.%s" % (cls, f.name)] = [sig] + _strip_logging(v.out)
+    return out
+
+
+def shape_digest(shapes):
+    return {k: hashlib.sha1("\n".join(v).encode()).hexdigest()[:12] for k, v in sorted(shapes.items())}
+
+
+# expected shape of the audited methods (tokens of method_shapes) for the tree the model was written against;
+# which model step represents which token is documented in the header of coq/Model/ChanFlow.v
+EXPECTED_SHAPE = {'HTTPChannel._flush_exception': ['(self,flush,do_close=True)',
+                                  'if(flush){',
+                                  'try{',
+                                  'return',
+                                  '}',
+                                  'except(OSError){',
+                                  '}',
+                                  'W:will_close',
+                                  'return',
+                                  '}',
+                                  'except(Exception){',
+                                  'W:will_close',
+                                  'return',
+                                  '}',
+                                  '}',
+                                  'return'],
+ 'HTTPChannel._flush_outbufs_below_high_watermark': ['(self)',
+                                                     'if(self.total_outbufs_len > self.adj.outbuf_high_watermark){',
+                                                     'R:total_outbufs_len',
+                                                     'with(self.outbuf_lock){',
+                                                     'call:self._flush_exception(self._flush_some,do_close=False)',
+                                                     'if(exception){',
+                                                     'call:self.server.pull_trigger()',
+                                                     'call:self.outbuf_lock.wait()',
+                                                     'return',
+                                                     '}',
+                                                     'while(self.connected and self.total_outbufs_len > self.adj.outbuf_high_watermark){',
+                                                     'R:connected',
+                                                     'R:total_outbufs_len',
+                                                     'call:self.server.pull_trigger()',
+                                                     'call:self.outbuf_lock.wait()',
+                                                     '}',
+                                                     '}',
+                                                     '}'],
+ 'HTTPChannel._flush_some': ['(self,do_close=True)',
+                             'let:sent=0',
+                             'let:dobreak=False',
+                             'while(True){',
+                             'R:outbufs',
+                             'call:outbuf.__len__()',
+                             'while(outbuflen > 0){',
+                             'call:outbuf.get()',
+                             'call:self.send(do_close=do_close)',
+                             'if(num_sent){',
+                             'call:outbuf.skip(True)',
+                             'R:total_outbufs_len',
+                             'W:total_outbufs_len(Sub)',
+                             '}',
+                             'else{',
+                             'let:dobreak=True',
+                             'break',
+                             '}',
+                             '}',
+                             'whileelse{',
+                             'if(len(self.outbufs) > 1){',
+                             'R:outbufs',
+                             'R:outbufs',
+                             'call:self.outbufs.pop(0)',
+                             'try{',
+                             'call:toclose.close()',
+                             '}',
+                             'except(Exception){',
+                             '}',
+                             '}',
+                             'else{',
+                             'let:dobreak=True',
+                             '}',
+                             '}',
+                             'if(dobreak){',
+                             'break',
+                             '}',
+                             '}',
+                             'if(sent){',
+                             'return',
+                             '}',
+                             'return'],
+ 'HTTPChannel._flush_some_if_lockable': ['(self,do_close=True)',
+                                         'if(self.outbuf_lock.acquire(False)){',
+                                         'call:self.outbuf_lock.acquire(False)',
+                                         'try{',
+                                         'call:self._flush_some(do_close=do_close)',
+                                         'if(self.total_outbufs_len < self.adj.outbuf_high_watermark){',
+                                         'R:total_outbufs_len',
+                                         'call:self.outbuf_lock.notify()',
+                                         '}',
+                                         '}',
+                                         'finally{',
+                                         'call:self.outbuf_lock.release()',
+                                         '}',
+                                         '}'],
+ 'HTTPChannel.handle_close': ['(self)',
+                              'with(self.outbuf_lock){',
+                              'for(self.outbufs){',
+                              'R:outbufs',
+                              'try{',
+                              'call:outbuf.close()',
+                              '}',
+                              'except(Exception){',
+                              '}',
+                              '}',
+                              'W:total_outbufs_len',
+                              'W:connected',
+                              'call:self.outbuf_lock.notify()',
+                              '}'],
+ 'HTTPChannel.handle_read': ['(self)',
+                             'try{',
+                             'call:self.recv()',
+                             '}',
+                             'except(OSError){',
+                             '}',
+                             'call:self.handle_close()',
+                             'return',
+                             '}',
+                             'if(data){',
+                             'call:self.received()',
+                             '}',
+                             'else{',
+                             'W:connected',
+                             '}'],
+ 'HTTPChannel.handle_write': ['(self)',
+                              'if(not self.requests){',
+                              'R:requests',
+                              'let:flush=self._flush_some_if_lockable',
+                              '}',
+                              'else{',
+                              'if(self.total_outbufs_len >= self.adj.send_bytes){',
+                              'R:total_outbufs_len',
+                              'let:flush=self._flush_some_if_lockable',
+                              '}',
+                              'else{',
+                              'let:flush=None',
+                              '}',
+                              '}',
+                              'call:self._flush_exception()',
+                              'if(self.close_when_flushed and (not self.total_outbufs_len)){',
+                              'R:close_when_flushed',
+                              'R:total_outbufs_len',
+                              'W:close_when_flushed',
+                              'W:will_close',
+                              '}',
+                              'if(self.will_close){',
+                              'R:will_close',
+                              'call:self.handle_close()',
+                              '}'],
+ 'HTTPChannel.readable': ['(self)', 'R:will_close', 'R:close_when_flushed', 'R:requests', 'R:total_outbufs_len', 'return'],
+ 'HTTPChannel.received': ['(self,data)',
+                          'if(not data){',
+                          'return',
+                          '}',
+                          'with(self.requests_lock){',
+                          'if(self.will_close or self.close_when_flushed){',
+                          'R:will_close',
+                          'R:close_when_flushed',
+                          'return',
+                          '}',
+                          'while(data){',
+                          'if(self.request is None){',
+                          'call:self.parser_class()',
+                          '}',
+                          'call:self.request.received()',
+                          'if(self.request.expect_continue and self.request.headers_finished and (not self.requests) and (not self.sent_continue)){',
+                          'R:requests',
+                          'call:self.send_continue()',
+                          '}',
+                          'if(self.request.completed){',
+                          'if(not self.request.empty){',
+                          'R:requests',
+                          'call:self.requests.append()',
+                          'if(len(self.requests) == 1){',
+                          'R:requests',
+                          'call:self.server.add_task()',
+                          '}',
+                          '}',
+                          '}',
+                          'if(n >= len(data)){',
+                          'break',
+                          '}',
+                          '}',
+                          '}',
+                          'return'],
+ 'HTTPChannel.service': ['(self)',
+                         'R:requests',
+                         'if(request.error){',
+                         'call:self.error_task_class()',
+                         '}',
+                         'else{',
+                         'call:self.task_class()',
+                         '}',
+                         'try{',
+                         'if(self.connected){',
+                         'R:connected',
+                         '}',
+                         'else{',
+                         '}',
+                         '}',
+                         'except(ClientDisconnected){',
+                         '}',
+                         'except(Exception){',
+                         'if(not task.wrote_header){',
+                         'if(self.adj.expose_tracebacks){',
+                         '}',
+                         'else{',
+                         "let:body='The server encountered an unexpected internal server error'",
+                         '}',
+                         'call:self.parser_class()',
+                         'try{',
+                         '}',
+                         'except(KeyError){',
+                         'pass',
+                         '}',
+                         'call:self.error_task_class()',
+                         'try{',
+                         '}',
+                         'except(ClientDisconnected){',
+                         '}',
+                         '}',
+                         'else{',
+                         '}',
+                         '}',
+                         'if(task.close_on_finish){',
+                         'with(self.requests_lock){',
+                         'W:close_when_flushed',
+                         'for(self.requests){',
+                         'R:requests',
+                         '}',
+                         'W:requests',
+                         '}',
+                         '}',
+                         'else{',
+                         'if(len(self.requests) > 1){',
+                         'R:requests',
+                         'call:self._flush_outbufs_below_high_watermark()',
+                         '}',
+                         'if(self.current_outbuf_count > 0){',
+                         '}',
+                         'with(self.requests_lock){',
+                         'R:requests',
+                         'call:self.requests.pop(0)',
+                         'if(self.connected and self.requests){',
+                         'R:connected',
+                         'R:requests',
+                         'call:self.server.add_task()',
+                         '}',
+                         'else{',
+                         'if(self.connected and self.request is not None and self.request.expect_continue and self.request.headers_finished and (not '
+                         'self.sent_continue)){',
+                         'R:connected',
+                         'call:self.send_continue(do_close=False)',
+                         '}',
+                         '}',
+                         '}',
+                         '}',
+                         'if(self.connected){',
+                         'R:connected',
+                         'call:self.server.pull_trigger()',
+                         '}'],
+ 'HTTPChannel.writable': ['(self)', 'R:total_outbufs_len', 'R:will_close', 'R:close_when_flushed', 'return'],
+ 'HTTPChannel.write_soon': ['(self,data)',
+                            'if(not self.connected){',
+                            'R:connected',
+                            'raise(ClientDisconnected)',
+                            '}',
+                            'if(data){',
+                            'with(self.outbuf_lock){',
+                            'call:self._flush_outbufs_below_high_watermark()',
+                            'if(not self.connected){',
+                            'R:connected',
+                            'raise(ClientDisconnected)',
+                            '}',
+                            'if(isinstance(data, ReadOnlyFileBasedBuffer)){',
+                            'R:outbufs',
+                            'call:self.outbufs.append()',
+                            'R:outbufs',
+                            'call:self.outbufs.append()',
+                            '}',
+                            'else{',
+                            'if(self.current_outbuf_count >= self.adj.outbuf_high_watermark){',
+                            'R:outbufs',
+                            'call:self.outbufs.append()',
+                            '}',
+                            'R:outbufs',
+                            'call:self.outbufs[].append()',
+                            '}',
+                            'R:total_outbufs_len',
+                            'W:total_outbufs_len(Add)',
+                            'if(self.total_outbufs_len >= self.adj.send_bytes){',
+                            'R:total_outbufs_len',
+                            'call:self._flush_exception(self._flush_some,do_close=False)',
+                            'if(exception or not flushed or self.total_outbufs_len >= self.adj.send_bytes){',
+                            'R:total_outbufs_len',
+                            'call:self.server.pull_trigger()',
+                            '}',
+                            '}',
+                            '}',
+                            'return',
+                            '}',
+                            'return'],
+ 'dispatcher.close': ['(self)',
+                      'W:connected',
+                      'call:self.del_channel()',
+                      'if(self.socket is not None){',
+                      'try{',
+                      'call:self.socket.close()',
+                      '}',
+                      'except(OSError){',
+                      'if(why.args[0] not in (ENOTCONN, EBADF)){',
+                      'raise()',
+                      '}',
+                      '}',
+                      '}'],
+ 'dispatcher.recv': ['(self,buffer_size)',
+                     'try{',
+                     'call:self.socket.recv()',
+                     'if(not data){',
+                     'call:self.handle_close()',
+                     'return',
+                     '}',
+                     'else{',
+                     'return',
+                     '}',
+                     '}',
+                     'except(OSError){',
+                     'if(why.args[0] in _DISCONNECTED){',
+                     'call:self.handle_close()',
+                     'return',
+                     '}',
+                     'else{',
+                     'raise()',
+                     '}',
+                     '}'],
+ 'dispatcher.send': ['(self,data,do_close=True)',
+                     'try{',
+                     'call:self.socket.send()',
+                     'return',
+                     '}',
+                     'except(OSError){',
+                     'if(why.args[0] == EWOULDBLOCK){',
+                     'return',
+                     '}',
+                     'else{',
+                     'if(why.args[0] in _DISCONNECTED){',
+                     'if(do_close){',
+                     'call:self.handle_close()',
+                     '}',
+                     'return',
+                     '}',
+                     'else{',
+                     'raise()',
+                     '}',
+                     '}',
+                     '}']}
+
+
+def shape_audit(src_dir):
+    """-> list of (method, detail) differences between the source and EXPECTED_SHAPE"""
+    now = method_shapes(src_dir)
+    diffs = []
+    for k in sorted(set(now) | set(EXPECTED_SHAPE)):
+        a, b = EXPECTED_SHAPE.get(k), now.get(k)
+        if a == b:
+            continue
+        if a is None or b is None:
+            diffs.append((k, "method %s" % ("disappeared" if b is None else "is new")))
+            continue
+        i = 0
+        while i < min(len(a), len(b)) and a[i] == b[i]:
+            i += 1
+        diffs.append((k, "token %d: expected %r, source has %r" % (
+            i, a[i] if i < len(a) else "<end>", b[i] if i < len(b) else "<end>")))
+    return diffs
+
+
+# ---------------------------------------------------------------------------
+# scenarios
+
+def make_request(i, close=False, http10=False):
+    head = "GET /r%d HTTP/%s\r\nHost: x\r\n" % (i, "1.0" if http10 else "1.1")
+    if close:
+        head += "Connection: close\r\n"
+    return (head + "\r\n").encode()
+
+
+def make_app(reqs):
+    """reqs: list of {"chunks": [sizes], "close": bool}; request i is GET /r<i>; chunk j of request i
+    consists of the byte chr(97 + (3*i+j) % 26)"""
+    bodies = {}
+    for i, r in enumerate(reqs):
+        bodies["/r%d" % i] = [bytes([97 + (3 * i + j) % 26]) * n for j, n in enumerate(r["chunks"])]
+
+    def app(environ, start_response):
+        chunks = bodies.get(environ.get("PATH_INFO"), [b"?"])
+        start_response("200 OK", [("Content-Length", str(sum(len(c) for c in chunks)))])
+        return list(chunks)
+    return app
+
+
+def build_world(scn, schedule=(), policy=None, max_steps=None):
+    reqs = scn["reqs"]
+    script = []
+    for st in scn["script"]:
+        if st[0] == "send":
+            r = reqs[st[1]]
+            script.append(("send", make_request(st[1], close=r.get("close", False))))
+        elif st[0] == "wait_wire":
+            script.append(("wait_wire", st[1]))
+        else:
+            script.append((st[0],))
+    plan = [tuple(x) if isinstance(x, list) else x for x in scn.get("plan", [])]
+    return FlowWorld(make_app(reqs), script, schedule=schedule, policy=policy, adj_kw=dict(scn["adj"]),
+                     n_workers=scn.get("workers", 1), send_plan=plan, granularity=scn.get("gran", "locks"),
+                     max_steps=max_steps or scn.get("max_steps", 1500))
+
+
+def policy_of(spec):
+    if spec is None:
+        return None
+    kind = spec[0]
+    if kind == "random":
+        return RandomPolicy(random.Random(spec[1]), stay=spec[2])
+    if kind == "pct":
+        return PCTPolicy(random.Random(spec[1]), spec[2], spec[3])
+    return None
+
+
+# ---------------------------------------------------------------------------
+# the C12 monitors on a finished real run
+
+def monitors(world, verdict):
+    """-> list of (key, kf_class or None, text) ; empty = the run satisfies C12"""
+    out = []
+    adj = world.adj
+    hw, sb = adj.outbuf_high_watermark, adj.send_bytes
+    sched = world.sched
+    ev = sched.events
+    # (a) bound: bytes held <= high_watermark + size of the last append (an increase of the bytes held)
+    last = 0
+    prev = 0
+    worst = None
+    snaps = [sched.snaps[i] for i in sorted(sched.snaps) if sched.snaps[i] is not None]
+    if getattr(world, "snap_final", None) is not None:
+        snaps.append(world.snap_final)
+    for sn in snaps:
+        p = sn["p"]
+        if p > prev:
+            last = p - prev
+        prev = p
+        if sn["c"] and p > hw + last:
+            if worst is None or p - (hw + last) > worst[0]:
+                worst = (p - (hw + last), p, last)
+    if worst is not None:
+        out.append(("bound", None, "bytes held %d > high_watermark %d + last write %d" % (worst[1], hw, worst[2])))
+    fin = getattr(world, "snap_final", None)
+    if fin is None:
+        return out
+    # (b) release / abort at the end of the run
+    if fin["park"]:
+        progress_stopped = verdict == "blocked" or (verdict == "overrun" and _no_progress(world))
+        if not fin["c"]:
+            if verdict == "blocked":
+                kf = "kf_c12_tail_race" if (fin["n"] >= 2 and adj.channel_request_lookahead >= 1) else None
+                out.append(("abort-parked-after-close", kf,
+                            "a worker waits on outbuf_lock although connected is False (channel in map: %s, requests: %d)" % (fin["im"], fin["n"])))
+        elif progress_stopped and fin["rd"] and not fin["gn"]:
+            if hw == 0 and fin["t"] == 0:
+                kf = "kf_c12_hw_zero"
+            elif 0 < fin["t"] < sb:
+                kf = "kf_c12_below_send_bytes"
+            else:
+                kf = None
+            out.append(("release-parked-%s" % ("quiescent" if verdict == "blocked" else "spinning"), kf,
+                        "a worker waits on outbuf_lock for ever: total=%d high_watermark=%d send_bytes=%d, the client reads, %s" % (
+                            fin["t"], hw, sb, "the I/O thread is blocked in select" if verdict == "blocked" else "the I/O thread spins without sending")))
+    # (c) no write is accepted once connected is False
+    idx = sorted(sched.snaps)
+    import bisect
+    for i, (th, kind, detail) in enumerate(ev):
+        if kind == "ws_ret" and detail:
+            j = bisect.bisect_right(idx, i)
+            sn = sched.snaps[idx[j]] if j < len(idx) else fin
+            if sn is not None and not sn["c"]:
+                out.append(("accepted-after-close", None, "write_soon accepted %d bytes although the connection was closed" % detail))
+                break
+    # (d) order / integrity of the wire
+    acc = b"".join(world.accepted)
+    if not acc.startswith(bytes(world.wire)):
+        out.append(("wire-not-prefix", None, "the bytes on the wire are not a prefix of the accepted output"))
+    elif fin["c"] and fin["t"] == 0 and fin["p"] == 0 and fin["ol"] == "-" and bytes(world.wire) != acc:
+        out.append(("wire-incomplete", None, "total_outbufs_len is 0 but %d accepted bytes never reached the wire" % (len(acc) - len(world.wire))))
+    return out
+
+
+def _no_progress(world):
+    """overrun: did the second half of the run move any byte or change the abstract state?"""
+    sched = world.sched
+    idx = sorted(i for i in sched.snaps if sched.snaps[i] is not None)
+    if len(idx) < 40:
+        return False
+    half = idx[len(idx) // 2:]
+    keys = ("t", "p", "c", "wc", "cwf", "n", "park")
+    first = tuple(sched.snaps[half[0]][k] for k in keys)
+    return all(tuple(sched.snaps[i][k] for k in keys) == first for i in half)
